@@ -134,6 +134,7 @@ Fixpoint to_js (fm : bool) (en : env) (e : expr) {struct e} : js :=
     | TSpecial => js_prop fm name                                   (* _system.floatPrecision, ... *)
     | TDateTime => JCall "_system.date" [JLit ("'" ++ name ++ "'")]
     | TSystem => JMember (assoc_or name SYSTEM_PROPERTIES) name     (* _movie.stageColor, ... *)
+    | TNumOf => JLit ""                                            (* outside the JavaScript theorems (js_ok) *)
     end
   | ETheN n =>
     match assoc_str (nm en n) ASSIGN_KNOWN_PROPERTIES with
@@ -158,7 +159,7 @@ Fixpoint js_ok (en : env) (e : expr) {struct e} : Prop :=
   (* a chunk of a number or of a signed value would need parentheses the generator does not write (5.word.length) *)
   | EObj f _ x => js_ok en x /\ match f with FLast | FNumber => needs_paren en x = false | _ => True end
   | EMenu _ it mn => js_ok en it /\ js_ok en mn
-  | EAcc _ _ => False
+  | EAcc _ _ | EThe TNumOf _ => False
   | _ => True
   end.
 (* every system property is attached to a runtime object other than me / tell_obj / _global (the regenerated table) *)
@@ -218,6 +219,7 @@ Fixpoint name_e (fm : bool) (en : env) (e : expr) {struct e} : nexpr :=
     | TSpecial => NProp (match assoc_str name VARIABLE_KNOWN_PROPERTIES with Some o => o | None => if fm then "this" else "me" end) name
     | TDateTime => NCall "_system.date" [NLit ("'" ++ name ++ "'")]
     | TSystem => if String.eqb (assoc_or name SYSTEM_PROPERTIES) "_global" then NGlob name else NProp (assoc_or name SYSTEM_PROPERTIES) name
+    | TNumOf => NLit ""
     end
   | ETheN n =>
     match assoc_str (nm en n) ASSIGN_KNOWN_PROPERTIES with
